@@ -35,7 +35,8 @@ CLAIMS['C16'] = dict(
           'assignment); the class invariant and the byte-string-model clause of each operation (where the appended range lands, how '
           'm_size changes, that growth preserves [0,m_size), what a move leaves in source and target) are discharged at every exit; the '
           'doubling loop is handled by widening with inductively verified bounds; every operator<< is shown to write the stream only '
-          'through append/append_char. Induction over operations gives content == concatenation for all histories.'),
+          'through verified members; to_string hands (raw_buffer(), size()) to from_utf8 with the requested mode resp. to from_latin_1; a text '
+          'rendered by snprintf straight into the stream counts only if snprintf reported less than the space given. Induction over operations gives content == concatenation for all histories.'),
     note=('relative to: clang-14 lowering, STIR and its models; sizes < 2^47; the bytes produced by conversions and number formatting '
           'that operator<< inserts are the subject of C01/C03/C12/C13, not of this check'),
     technique='static analysis: path-sensitive abstract interpretation over LLVM IR with loop widening + Houdini invariants; call-graph funnel')
@@ -104,7 +105,9 @@ CLAIMS['C10'] = dict(
           'm_format_str <= next) are inferred as candidates and verified inductive, so every read is proved to be at or before the '
           'terminating NUL, every loop iteration to advance, the formatter table to be indexed below its size and parse_format\'s '
           'precondition to hold - for format strings of any length and content. Throw sets (virtual dispatch restricted to the writer the '
-          'entry constructs), the assertion inventory, the digit-class defaults and the null guards of the pointer overloads close the claim.'),
+          'entry constructs), the assertion inventory, the digit-class defaults and the null guards of the pointer overloads close the claim. '
+          'The first two iterations of parse_format are additionally interpreted exactly (witnesses over the text alone); C string writers '
+          '(strcat / strncat / strcpy / strncpy) carry a capacity obligation on their destination.'),
     note=('relative to: clang-14 lowering, STIR, the model of strtol (reads from its argument up to at most the NUL; end >= start, > start '
           'on a leading decimal digit); user-defined format_type overloads and iostream internals are outside; assertions of the '
           'floating-point renderer are C13, of the converters C02/C03'),
@@ -128,7 +131,8 @@ CLAIMS['C06'] = dict(
           'prefix length is min(lsize,rsize); the maxlen forms clamp and delegate. The ASCII fold maps are compared class by class with '
           'A-Z<->a-z; an SSA rule keeps unfolded units out of compare_ci / find_ci / hash_i; compare_ci\'s step (one folded unit each side, '
           'difference iff different) and the 16 derived members / operators (core on (data,size) of both operands, right predicate, null '
-          'const char* = empty, no read past a C string\'s NUL) are checked by interpretation.'),
+          'const char* = empty, no read past a C string\'s NUL) are checked by interpretation; no comparison / search member hands the string to a '
+          'C primitive that stops at the first NUL (strcmp family; expected-zero rule with a positive control).'),
     note=('relative to: clang-14 lowering, STIR, std::char_traits<T>::compare being unsigned lexicographic (libstdc++); antisymmetry and '
           'transitivity follow from the lexicographic structure and are not mechanised separately; hash equality for equal strings follows from '
           'hash being a function of the bytes [0,size) only (C04/C20 effects)'),
@@ -148,7 +152,7 @@ CLAIMS['C13'] = dict(
     level='other',
     text=('Equality with printf holds by delegation to the same C library; what is decided statically is everything around that call, for '
           'all 16 (sign flag, precision given, notation) combinations of ST::format\'s renderer and for float_formatter: the assembled '
-          'conversion string is exactly %[+][.digits]{e,E,f,g} NUL-terminated, the size given to snprintf is the size of its destination, no '
+          'conversion string is exactly %[+][.digits]{e,E,f,g} NUL-terminated (assembled in a buffer, or a literal with the precision passed through .*), the size given to snprintf is the size of its destination, no '
           'assertion is reachable whatever length snprintf reports (the length is an unbounded symbol), the emitted length is the reported '
           'one and the pad count is width - length on the requested side; to_float / to_double call strtof / strtod directly and follow '
           'the ok / full_match table.'),
@@ -185,7 +189,8 @@ CLAIMS['C09'] = dict(
           'needle searched for; split emits the piece [cursor, match) and decrements max_splits once per piece, the final piece reaches '
           'the end; the sizing scan of replace adds |to|-|from| (mod 2^64) per occurrence and the copying scan copies the gap then `to` '
           'and advances the output by gap+|to|, both scans issuing the same search; tokenize emits only non-empty ranges of the string, '
-          'tests delimiters with find_cs on the whole set and never reads outside [0,size]. The overloads are shown to forward to the cores. '
+          'tests delimiters with find_cs on the whole set and never reads outside [0,size]; a result of replace produced without searching is '
+          'justified only by an empty text / pattern or a byte-for-byte identical replacement. The overloads are shown to forward to the cores. '
           'Decided: these step facts. Not decided: that the search returns the FIRST match (C07), join (a plain concatenation loop), and the '
           'induction from steps to whole-string equations, which is stated in DESIGN.md but not mechanised.'),
     note=('relative to: clang-14 lowering, STIR, C05, C07; a codec that tests delimiters by other means than find_cs is reported undecided'),
@@ -200,7 +205,8 @@ CLAIMS['C07'] = dict(
           'The 23 find / find_last front ends are interpreted with start / max / lengths free over 64 bits: they search exactly '
           '(c_str()+start, size()-start) with start < size and a needle of length >= 1, return match - c_str() or -1, and return -1 without '
           'searching only for an empty / null needle or start >= size; contains == (find >= 0); starts_with / ends_with compare exactly |x| '
-          'units at offset 0 / size-|x| under |x| <= size. Not mechanised: the induction from these steps to "smallest / largest index".'),
+          'units at offset 0 / size-|x| under |x| <= size; the hit test of the case-insensitive character scan is decided by finite case analysis '
+          'over all (unit, character) pairs; a result taken over from a delegated search must come from the same question (limit, needle, case mode). Not mechanised: the induction from these steps to "smallest / largest index".'),
     note=('relative to: clang-14 lowering, STIR, memchr / memcmp as specified, C06 for compare_ci and the fold; level "other" because the final '
           'induction is stated in DESIGN.md rather than machine-checked'),
     technique='static analysis: per-iteration loop summaries and per-path call-site facts by abstract interpretation over LLVM IR (free scalars at full range, witness search)')
@@ -212,7 +218,10 @@ CLAIMS['C11'] = dict(
           'units between sign/prefix and digits (zero-pad), in front (right / default) or behind (left); format_string emits the first '
           'min(size, precision) units and the pad on the side of the alignment; every numeric printer hands the radix / letter case of its '
           'digit class to the digit generator and the true sign class to the layout; apply_format dispatches a field without &N to '
-          'entry[counter] and advances the counter, &N to entry[N-1] leaving the counter alone. Not decided here: the digits (C12), what the '
+          'entry[counter] and advances the counter, &N to entry[N-1] leaving the counter alone; a value given the character class renders as the '
+          'UTF-8 encoding of the code point bit for bit (U+FFFD outside 0..10FFFF, negatives included); every flag character of a field text '
+          'stores exactly its documented fields of the public ST::format_spec (alignment, pad, numeric_pad, class_prefix, always_signed, digit / '
+          'float class, width / precision / index from the decimal number that follows). Not decided here: the digits (C12), what the '
           'parser accepts and the literal / brace copying (C10 covers its safety, not its value), the character class.'),
     note=('relative to: clang-14 lowering, STIR, C10, C12, C16; texts < 2^28 units (library contract); level "other": necessary clauses over '
           'the whole configuration space, not the full output equation'),
